@@ -273,7 +273,11 @@ fn run_prop(prop: &'static str, thorough: bool) -> Part {
         {
             let max_n: usize = std::env::var("FG_EXHAUST_N").ok().and_then(|s| s.parse().ok()).unwrap_or(if thorough { 3 } else { 2 });
             let t = Instant::now();
-            let ex = fgverif::exhaust::exhaustive_schedules(prop, max_n, 1, workers as usize);
+            let budget_s: u64 = std::env::var("FG_EXHAUST_BUDGET_S").ok().and_then(|s| s.parse().ok()).unwrap_or(if thorough { 2400 } else { 150 });
+            let ex = fgverif::exhaust::exhaustive_schedules(prop, max_n, 1, workers as usize, budget_s);
+            if !ex.complete && ex.violation.is_none() {
+                println!("note: {prop}: the exhaustive small-scope tier was stopped before it was complete (budget {budget_s} s or depth bound); no verdict from that tier");
+            }
             part.exhaustive.push(json!({"description": ex.description, "configurations": ex.configs, "runs": ex.runs, "nontrivial": ex.nontrivial, "complete": ex.complete, "deepest_schedule": ex.max_depth, "wall_s": t.elapsed().as_secs_f64()}));
             part.stats.evaluations += ex.runs;
             part.stats.executions += ex.runs;
@@ -774,11 +778,42 @@ fn cmd_fuzz_replay(target: &str, prop: &'static str, artifact: &str) -> i32 {
     0
 }
 
+/// A `build()` of the code under test that does not come back: for C18 (whose oracle
+/// is the work `build()` does) that is the violation itself - reported with the spec
+/// being built as the replay; for every other property the check cannot reach a
+/// verdict (exit 2), it is never reported as a violation of that property.
+fn start_build_watchdog(prop: &'static str) {
+    fgverif::watch::start(move |spec, cpu| {
+        let n = spec.n();
+        if prop == "C18" {
+            let v = Violation {
+                prop: "C18".into(),
+                kind: "build-cpu-time-exceeds-budget".into(),
+                msg: format!(
+                    "build() of {n} functions has used {cpu:.1} s of CPU and has not returned (budget {} s per build; the largest generated instance needs milliseconds on a polynomial tree)",
+                    c18::BUILD_CPU_BUDGET_S
+                ),
+            };
+            let case = BuildCase { spec: spec.clone(), fail_pos: 0, mutation: None, labels: vec![], walks: vec![] };
+            let f = Failure { check: "build-watchdog:C18".into(), violation: v.clone(), tapes: vec![], decoded: builder::build_decoded(&case) };
+            let path = write_replay(prop, &f);
+            println!("violation: {} {}: {}", v.prop, v.kind, v.msg);
+            println!("VIOLATION property={prop} replay={path}");
+            std::process::exit(1);
+        }
+        println!("INCONCLUSIVE: {prop}: a build() of {n} functions has used {cpu:.1} s of CPU and has not returned; this check cannot reach a verdict (the work of build() is property C18)");
+        std::process::exit(2);
+    });
+}
+
 fn main() {
     // panics of the code under test are caught and reported by the engines
     std::panic::set_hook(Box::new(|_| {}));
     let _ = model::access_calls();
     let args: Vec<String> = std::env::args().collect();
+    if matches!(args.get(1).map(|s| s.as_str()), Some("run") | Some("replay")) && args.len() >= 3 {
+        start_build_watchdog(leak(&args[2]));
+    }
     let code = match args.get(1).map(|s| s.as_str()) {
         Some("run") if args.len() >= 5 => cmd_run(leak(&args[2]), &args[3], &args[4]),
         Some("replay") if args.len() >= 4 => cmd_replay(&args[2], &args[3]),
